@@ -13,8 +13,9 @@ is advanced only in the `else` branch of `if result.is_some() { return result }`
 -/
 namespace SigHook.Scan
 
-/-- the shape of the loop body: `load`, `return` on a hit, `else` advance -/
-def staysOnHit : Bool := skelOf backendFile "next" == ["load", "return", "else", "advance"]
+/-- the shape of the loop: over every slot from `position` to the end of the table (`bound.slots`: no other
+bound, no `break`); body: `load`, `return` on a hit, `else` advance -/
+def staysOnHit : Bool := skelOf backendFile "next" == ["bound.slots", "load", "return", "else", "advance"]
 
 structure St where
   done : List (List Nat)
